@@ -178,9 +178,89 @@ def rule_expand(repo: Repo, rep: Report) -> int:
     return n + 1
 
 
+def forward_evaluated(repo: Repo):
+    """FlatFadingChannel.forward (class helpers followed, attributes carried from call to call) evaluated with own arithmetic
+    on a sequence of calls on one channel object - 4-D, 1-D, 2-D complex and 2-D real inputs - with the channel state
+    and the noise supplied by the caller, and once more with the state generated (the two coefficient methods replaced
+    by recording stand-ins).  Returns ({"supplied": (status, detail), "generated": (status, detail)}) or None."""
+    from ..constfold import Unfoldable
+    from ..frag import FragRaise, FragReturn, run_fragment
+
+    ci = repo.cls(AN, "FlatFadingChannel")
+    fi = repo.method(ci, "forward")
+
+    def val(i):
+        return complex(1 + i, 0.5 * i - 1)
+
+    def flat(z):
+        return [y for t in z for y in flat(t)] if isinstance(z, list) else [z]
+
+    def shape(z):
+        return [len(z)] + shape(z[0]) if isinstance(z, list) and z else ([0] if isinstance(z, list) else [])
+
+    inputs = [
+        ("(2,1,2,2) complex", [[[[val(0), val(1)], [val(2), val(3)]]], [[[val(4), val(5)], [val(6), val(7)]]]], 2, 4),
+        ("(4,) complex", [val(i) for i in range(4)], 1, 4),
+        ("(2,3) complex", [[val(i) for i in range(3)], [val(i + 5) for i in range(3)]], 2, 3),
+        ("(2,3) real", [[1.0, 2.0, 3.0], [4.0, 5.0, 6.0]], 2, 3),
+        ("(3,) real", [0.5, -1.0, 2.0], 1, 3),
+        ("(1,) complex", [val(3)], 1, 1),
+        ("(1,1) real", [[-2.0]], 1, 1),
+        ("(1,1,1) complex", [[[val(2)]]], 1, 1),
+    ]
+    out = {}
+    for mode in ("supplied", "generated"):
+        attrs = {"self.snr_db": None, "self.avg_noise_power": 0.1, "self.coherence_time": 2}
+        calls = []
+        funcs = {f"self.{nm}": m.node for nm, m in ci.methods.items() if nm not in ("forward", "__init__", "_generate_fading_coefficients", "_expand_coefficients")}
+        res = None
+        for what, x, B, L in inputs:
+            csi = [[complex(0.5 + b, 0.25 * l_) for l_ in range(L)] for b in range(B)]
+            noise = [[complex(0.01 * l_, -0.02 * b) for l_ in range(L)] for b in range(B)]
+            blocks = [[complex(2 + b, k_) for k_ in range((L + 1) // 2)] for b in range(B)]
+            ctors = {}
+            if mode == "generated":
+
+                def gen(*a, _blocks=blocks, **kw):
+                    calls.append(("generate", a[:2]))
+                    return [list(r) for r in _blocks]
+
+                def expand(*a, _csi=csi, _blocks=blocks, **kw):
+                    calls.append(("expand", (a[0] == _blocks, a[1] if len(a) > 1 else kw.get("seq_length"))))
+                    return [list(r) for r in _csi]
+
+                ctors = {"self._generate_fading_coefficients": gen, "self._expand_coefficients": expand}
+                del calls[:]
+            try:
+                run_fragment(fi.body, {"x": x, "csi": csi if mode == "supplied" else None, "noise": noise, "args": [], "kwargs": {}}, attrs, funcs=funcs, ctors=ctors, materialise=True, max_steps=400000, attrs_live=True)
+                return None
+            except FragReturn as ret:
+                got = ret.value
+            except (Unfoldable, FragRaise, TypeError, IndexError, ValueError):
+                return None
+            xf = flat(x)
+            want = [csi[i // L][i % L] * complex(xf[i]) + noise[i // L][i % L] for i in range(B * L)]
+            gf = flat(got) if isinstance(got, list) else None
+            if gf is None or not all(isinstance(v, (int, float, complex)) and not isinstance(v, bool) for v in gf):
+                return None
+            if mode == "generated" and calls != [("generate", (B, L)), ("expand", (True, L))]:
+                res = (VIOLATION, f"input {what}: the coefficients are obtained by {calls}; they must be generated for the input's own batch size and length ({B}, {L}) and expanded to that length")
+                break
+            if shape(got) != shape(x) or len(gf) != len(want) or any(abs(complex(a) - b) > 1e-9 for a, b in zip(gf, want)):
+                res = (VIOLATION, f"call with input {what} (after {[w for w, *_ in inputs[: [w for w, *_ in inputs].index(what)]] or 'no'} earlier calls on the same object): the output has shape {shape(got)} and starts {str(gf[:3])[:80]}; h*x + n in the input's shape {shape(x)} starts {str(want[:3])[:80]}")
+                break
+        out[mode] = res or (OK, f"{len(inputs)} successive calls on one object (4-D, 1-D, 2-D complex; 2-D and 1-D real; single-sample inputs of rank 1, 2, 3): each output is h*x + n element by element, in the shape of its own input" + ("; coefficients generated for the input's own (batch, length) and expanded to that length" if mode == "generated" else ""))
+    return out
+
+
 def rule_forward(repo: Repo, rep: Report) -> int:
     fi = repo.func(AN, "FlatFadingChannel.forward")
     n = 0
+    ev = forward_evaluated(repo)
+    if ev is not None:
+        rep.add("FORWARD", fi, "forward evaluated on successive calls of different shapes, channel state and noise supplied", ev["supplied"][0], ev["supplied"][1], node=fi.node)
+        rep.add("FORWARD", fi, "forward evaluated with generated channel state (coefficient methods replaced by recording stand-ins)", ev["generated"][0], ev["generated"][1], node=fi.node)
+        return 5
     for shape, atoms_shape, wrap in (
         ("2-D", {"is_1d": False, "len(x.shape) > 2": False, "len(original_shape) > 2": False}, "{}"),
         ("1-D", {"is_1d": True, "len(x.shape) > 2": False, "len(original_shape) > 2": False}, "{}.squeeze(0)"),
@@ -198,7 +278,10 @@ def rule_forward(repo: Repo, rep: Report) -> int:
         want = {"2-D": core, "1-D": f"{core}.squeeze(0)", ">2-D": f"{core}.reshape(x.shape)"}[shape]
         alts = {want, want.replace(f"(csi * {xin})", f"({xin} * csi)")}
         ok = bool(got) and got <= alts
-        rep.check(ok, "FORWARD", fi, f"{shape} input, csi and noise supplied: returns {' | '.join(sorted(got))[:200]}", "exactly h*x + n, restored to the input's shape", f"with caller-supplied channel state and noise the output must be {want}", node=fi.node)
+        if not ok and got & alts:
+            rep.undecided("FORWARD", fi, f"{shape} input, csi and noise supplied: returns {' | '.join(sorted(got))[:200]}", "alternatives of branches this configuration does not separate (the required form is among them)", node=fi.node)
+        else:
+            rep.check(ok, "FORWARD", fi, f"{shape} input, csi and noise supplied: returns {' | '.join(sorted(got))[:200]}", "exactly h*x + n, restored to the input's shape", f"with caller-supplied channel state and noise the output must be {want}", node=fi.node)
         n += 1
     # real inputs are promoted to complex with zero imaginary part
     prom = [s for s in stmts_of(fi.body) if isinstance(s, ast.If) and len(s.body) == 1 and match(s.body[0], "x = torch.complex(x, torch.zeros_like(x))") is not None]
@@ -224,6 +307,9 @@ def rule_forward(repo: Repo, rep: Report) -> int:
         got |= set(v or ())
     want = "((self._expand_coefficients(self._generate_fading_coefficients(x.shape.0,x.shape.1,x.device),x.shape.1) * x) + noise)"
     ok = got == {want}
+    if not ok and any(g_.startswith(want[:-1]) or want in g_ for g_ in got):
+        rep.undecided("FORWARD", fi, f"generated fading: returns {' | '.join(sorted(got))[:260]}", "alternatives of branches this configuration does not separate (the required form is among them)", node=fi.node)
+        return n + 1
     rep.check(ok, "FORWARD", fi, f"generated fading: returns {' | '.join(sorted(got))[:260]}", "h = expand(generate(batch, L), L) with the input's own batch size and length", f"generated path must be {want}", node=fi.node)
     n += 1
     return n
